@@ -100,6 +100,9 @@ def _run_reader(chunks, record_json=True, prepare=None):
             getincrementaldecoder = staticmethod(_fake_getincrementaldecoder)
         STDIO.codecs = _C
     if record_json:
+        # seams used by (a)/(b): the module-level `json` of stdio_client and the client's _process_message_data
+        if not hasattr(STDIO, "json") or not hasattr(c, "_process_message_data"):
+            raise HarnessError("seam missing: stdio_client.json / StdioClient._process_message_data")
         STDIO.json = rec
 
         async def pm(data):
